@@ -149,6 +149,11 @@ class ByteSizedLoop:
                 yield from I.exec_block(node.body, frame)
             except _Continue:
                 pass
+            except _Break:
+                # the body left the loop from this iteration: execution goes on behind the loop (the element was not completed)
+                ctx.record("LOOP/bytesized/iteration-decodes-its-element-or-leaves-by-an-exception", False, "loop", site, detail="the loop was left by `break` in the middle of an element")
+                relay_finish(ctx, site)
+                return
             seg = ctx.trace[before:]
             rec = check_element_call(ctx, I, [x for x in seg if x[0] == "call"], element_type, path[:-1], path[-1].name, k, lst, strict, "bytesized", site)
             ok = rec is not None and len(elements) == n_before + 1 and elements[-1] is rec.get("result")
